@@ -2,9 +2,11 @@
    outcome of every Dial / ActivateSession / CreateSession / UpdateNamespaces call.  States and their order of
    reporting are transcribed from monitor(), Connect() and Close(); the subscription actions never fail the machine
    (their errors are logged, see C26). *)
-From Coq Require Import List Bool Arith Lia.
+From Coq Require Import List Bool Arith Lia String.
 From Opcua Require Import Model.ClientSession.   (* conn_state *)
 Import ListNotations.
+Open Scope list_scope.
+Open Scope nat_scope.
 
 Inductive raction := RNone | RCreateSecureChannel | RRestoreSession | RRecreateSession | RRestoreSubscriptions
                    | RTransferSubscriptions | RAbortReconnect.
@@ -69,8 +71,10 @@ Fixpoint dial_loop (fuel : nat) (s : mstate) : mstate :=
   | S f => let '(ok, s') := do_call s CDial in if ok then s' else dial_loop f s'
   end.
 
-(* one iteration of `for action != none { switch action ... }` *)
-Definition step_action (s : mstate) : mstate :=
+(* one iteration of `for action != none { switch action ... }`.
+   [tr]: does the transferSubscriptions action report Reconnecting?  (It did not before the fix: commit recorded in
+   known_findings.txt; Gen/ClientMonitorStates.v has what the code does today.) *)
+Definition step_action_gen (tr : bool) (s : mstate) : mstate :=
   match m_action s with
   | RNone => s
   | RCreateSecureChannel =>
@@ -98,16 +102,19 @@ Definition step_action (s : mstate) : mstate :=
           if ok3 then set_action s5 RTransferSubscriptions else set_action s5 RCreateSecureChannel
         else set_action s3 RCreateSecureChannel
       else set_action s2 RCreateSecureChannel
-  | RTransferSubscriptions => set_action s RRestoreSubscriptions
+  | RTransferSubscriptions => set_action (if tr then emit s StReconnecting else s) RRestoreSubscriptions
   | RRestoreSubscriptions => set_action (emit s StConnected) RNone
   | RAbortReconnect => finish s
   end.
 
-Fixpoint run_actions (fuel : nat) (s : mstate) : mstate :=
+Fixpoint run_actions_gen (tr : bool) (fuel : nat) (s : mstate) : mstate :=
   match fuel with
   | 0 => s
-  | S f => if m_done s then s else match m_action s with RNone => s | _ => run_actions f (step_action s) end
+  | S f => if m_done s then s else match m_action s with RNone => s | _ => run_actions_gen tr f (step_action_gen tr s) end
   end.
+
+Definition step_action := step_action_gen true.
+Definition run_actions := run_actions_gen true.
 
 (* an error arrives while the client is Connected and the machine idle *)
 Definition on_error (auto_reconnect : bool) (e : err_class) (s : mstate) : mstate :=
@@ -127,8 +134,9 @@ Definition on_close (s : mstate) : mstate :=
   else {| m_action := RNone; m_session := false; m_env := m_env s; m_states := m_states s ++ [StClosed; StClosed]; m_calls := m_calls s; m_done := true |}.
 
 (* reconnect after one error, everything included *)
-Definition reconnect (auto : bool) (e : err_class) (fuel : nat) (ev : env) : mstate :=
-  run_actions fuel (on_error auto e (connected ev)).
+Definition reconnect_gen (tr auto : bool) (e : err_class) (fuel : nat) (ev : env) : mstate :=
+  run_actions_gen tr fuel (on_error auto e (connected ev)).
+Definition reconnect := reconnect_gen true.
 
 (* --- the documented lifecycle (connstate.go + the comments in monitor()) ---------------------------------------- *)
 Definition documented (a b : conn_state) : bool :=
@@ -150,3 +158,10 @@ Fixpoint path_ok (l : list conn_state) : bool :=
   end.
 
 Definition last_state (s : mstate) : conn_state := last (m_states s) StClosed.
+
+(* the states each action reports, in order, as the model above has them (compared with the table the translator reads
+   off the `switch action` in monitor()) *)
+Definition expected_action_states (tr : bool) : list (String.string * list String.string) :=
+  [("createSecureChannel", ["Reconnecting"]); ("restoreSession", ["Reconnecting"]); ("recreateSession", ["Reconnecting"]);
+   ("transferSubscriptions", if tr then ["Reconnecting"] else []); ("restoreSubscriptions", ["Connected"]);
+   ("abortReconnect", [])]%string.
